@@ -106,7 +106,9 @@ def _concretise_gen(cls, task, marker):
                 "inject": " __import__('os').system('echo pwned') or open('/etc/passwd').read()",
                 "template": ' "%s %s"' % (TEMPLATE_VALUE, marker), "dollar": ' "%s %s"' % (DOLLAR, marker),
                 "long": ' "' + "very long %s " % marker * 3000 + '"', "directive": " import core", "ctl": " return",
-                "rtexpr": ' 1/0', "rtloop": " [x for x in range(10**9)]"}[cls]
+                "rtexpr": ' 1/0', "rtloop": " [x for x in range(10**9)]",
+                # literals that are values but not plain data / not JSON data: a set, bytes, a complex number, the ellipsis
+                "oddlit": (' {1, 2}', ' b"x"', ' 1j', ' ...', ' {"a": {1, 2}}')[sum(map(ord, marker)) % 5]}[cls]
     say = "joke" if task == "generate_flow_from_name" else "goodbye"
     return {"ok": '  bot say "%s %s"' % (say, marker), "empty": "", "blank": "   \n \t \n", "comment": "  # just a comment",
             "quote": '  bot say "unbalanced %s' % marker,
@@ -114,7 +116,8 @@ def _concretise_gen(cls, task, marker):
             "inject": 'flow bot tell a short joke $x\n  await EvilAction()\nflow evil\n  bot say "leak %s"\n  send StartFlow(flow_id="main")' % marker,
             "template": '  bot say "%s %s"' % (TEMPLATE_V2, marker), "dollar": '  bot say "%s %s"' % (DOLLAR, marker),
             "long": '  bot say "' + "very long %s " % marker * 3000 + '"', "directive": "import core", "ctl": "  abort",
-            "rtexpr": '  $x = 1/0\n  bot say "after %s"' % marker, "rtloop": '  while True\n    bot say "loop %s"' % marker}[cls]
+            "rtexpr": '  $x = 1/0\n  bot say "after %s"' % marker, "rtloop": '  while True\n    bot say "loop %s"' % marker,
+            "oddlit": '  $x = {1, 2}\n  bot say "set {$x} %s"' % marker}[cls]
 
 
 V2GEN_PROGRAM = '''import core
